@@ -460,9 +460,9 @@ func TestC11(t *testing.T) {
 		closed := rapid.IntRange(0, 9).Draw(rt, "closed") < 7
 		cfg := GenCfg{MaxNodes: 8, HardErrPct: 8, NoAny: closed, NoWildKey: closed}.withDefaults()
 		g := &pgen{t: rt, c: cfg}
-		g.budget = 1 + g.n(6, "psize")
+		g.budget = 1 + g.n(sz(6), "psize")
 		p := Normalize(g.pred(gctx{inFilter: true}))
-		g.budget = 1 + g.n(6, "qsize")
+		g.budget = 1 + g.n(sz(6), "qsize")
 		q := Normalize(g.pred(gctx{inFilter: true}))
 		doc := GenDoc(rt, DocCfg{}, "doc")
 		usesVars := p.Has(func(n *Node) bool { return n.K == KVar }) || q.Has(func(n *Node) bool { return n.K == KVar })
